@@ -4,6 +4,8 @@ import (
 	"fmt"
 	"go/token"
 	"go/types"
+	"sort"
+	"strings"
 
 	"golang.org/x/tools/go/callgraph"
 	"golang.org/x/tools/go/ssa"
@@ -601,6 +603,10 @@ func c12Pairing(env *lruEnv, all []*ssa.Function) {
 		cnt := m.Get("hits=0").Always() && m.Get("misses=0").Always() && m.Get("evictions=0").Always()
 		r.Check(itemsReset && listReset, "O-2", "cache.(*LRUCache).Clear#containers", c.P.Pos(clr.Pos()), "map and list both reset", "Clear does not reset both the map and the list on every path")
 		r.Check(cnt, "O-5", "cache.(*LRUCache).Clear#counters", c.P.Pos(clr.Pos()), "hits, misses, evictions reset to 0", "Clear does not reset all three counters to 0")
+	}
+	// any further container the operations fill is emptied by Clear as well
+	for _, f := range c12OtherContainers(all) {
+		r.Check(c12Resets(c, clr, f, 0), "O-2", "cache.(*LRUCache).Clear#container:"+f, c.P.Pos(clr.Pos()), "reset by Clear", "the operations add to LRUCache."+f+" but Clear does not reset it: entries cleared from the map and list stay referenced there and are met again by later operations")
 	}
 }
 
@@ -1287,4 +1293,97 @@ func c12Latest(env *lruEnv) {
 	}
 	r.Check(okNew, "O-6", "cache.(*LRUCache).Put#new-entry", c.P.Pos(put.Pos()), "new entry stores the key and value parameters", "the entry pushed by Put does not carry Put's key and value")
 	_ = types.Typ
+}
+
+// c12OtherContainers: fields of LRUCache other than items/evictList that hold
+// a container (map, slice, list) and that some method adds to.
+func c12OtherContainers(all []*ssa.Function) []string {
+	seen := map[string]bool{}
+	for _, fn := range all {
+		ssau.ForEachInstr(fn, true, func(in ssa.Instruction) {
+			fa, ok := in.(*ssa.FieldAddr)
+			if !ok || ssau.FieldOwner(fa) != lruType {
+				return
+			}
+			name := ssau.FieldName(fa)
+			if name == "items" || name == "evictList" {
+				return
+			}
+			et := fa.Type().Underlying().(*types.Pointer).Elem()
+			isList := strings.HasSuffix(et.String(), "container/list.List")
+			switch et.Underlying().(type) {
+			case *types.Map, *types.Slice:
+			default:
+				if !isList {
+					return
+				}
+			}
+			for _, ref := range *fa.Referrers() {
+				switch x := ref.(type) {
+				case *ssa.Store:
+					if x.Addr == fa && fn.Name() != "Clear" {
+						if _, isSlice := et.Underlying().(*types.Slice); isSlice {
+							seen[name] = true // append and store back
+						}
+					}
+				case *ssa.UnOp:
+					for _, r2 := range *x.Referrers() {
+						if mu, ok := r2.(*ssa.MapUpdate); ok && mu.Map == x {
+							seen[name] = true
+						}
+						if call := ssau.AsCall(r2); call != nil {
+							n := ssau.CallName(call)
+							if strings.HasPrefix(n, listNew+"Push") || strings.HasPrefix(n, listNew+"Insert") {
+								seen[name] = true
+							}
+						}
+					}
+				}
+			}
+		})
+	}
+	var out []string
+	for f := range seen {
+		out = append(out, f)
+	}
+	sort.Strings(out)
+	return out
+}
+
+// c12Resets: fn (or an LRUCache helper it calls) stores to the field, calls
+// Init on it, or clears it with the builtin.
+func c12Resets(c *Ctx, fn *ssa.Function, field string, d int) bool {
+	if fn == nil || d > 3 {
+		return false
+	}
+	found := false
+	ssau.ForEachInstr(fn, true, func(in ssa.Instruction) {
+		if fa, ok := in.(*ssa.FieldAddr); ok && ssau.FieldOwner(fa) == lruType && ssau.FieldName(fa) == field {
+			for _, ref := range *fa.Referrers() {
+				switch x := ref.(type) {
+				case *ssa.Store:
+					if x.Addr == fa {
+						found = true
+					}
+				case *ssa.UnOp:
+					for _, r2 := range *x.Referrers() {
+						if call := ssau.AsCall(r2); call != nil {
+							n := ssau.CallName(call)
+							if n == listNew+"Init" || n == "builtin.clear" {
+								found = true
+							}
+						}
+					}
+				}
+			}
+		}
+		if call := ssau.AsCall(in); call != nil && !found {
+			if cal := call.Common().StaticCallee(); cal != nil && (&lruEnv{}).isLRUMethod(cal) && cal != fn {
+				if c12Resets(c, cal, field, d+1) {
+					found = true
+				}
+			}
+		}
+	})
+	return found
 }
